@@ -1363,11 +1363,12 @@ class Vector():
 	def __lshift__(self, other):
 		""" The << operator behavior has been overridden to attempt to concatenate (append) the new array to the end of the first
 		"""
-		if self._dtype.kind in (bool, int) and isinstance(other, int):
+		if self._dtype is not None and self._dtype.kind in (bool, int) and isinstance(other, int):
 			warnings.warn(f"The behavior of >> and << have been overridden for concatenation. Use .bitshift() to shift bits.")
 
 		if isinstance(other, Vector):
-			if not self._dtype.nullable and not other.schema().nullable and self._dtype.kind != other.schema().kind:
+			if (self._dtype is not None and other.schema() is not None
+					and not self._dtype.nullable and not other.schema().nullable and self._dtype.kind != other.schema().kind):
 				raise SerifTypeError("Cannot concatenate two typesafe Vectors of different types")
 			appended = other._underlying
 		elif isinstance(other, Iterable) and not isinstance(other, (str, bytes, bytearray)):
@@ -1375,9 +1376,11 @@ class Vector():
 		else:
 			appended = (other,)
 		# The result dtype must accommodate the appended values too
+		# (an empty, untyped vector has no dtype yet: infer from the result)
 		dtype = self._dtype
-		for value in appended:
-			dtype = dtype.promote_with(value)
+		if dtype is not None:
+			for value in appended:
+				dtype = dtype.promote_with(value)
 		return Vector(self._underlying + appended,
 				dtype=dtype)
 
